@@ -318,11 +318,13 @@ func exhaustiveShort(c *fw.Ctx, width, maxLen int) {
 
 func runStructured(c *fw.Ctx, width int, thorough bool) {
 	max := 1<<uint(width) - 1
-	// 64, 8192, 2^20 and 2^27 equal values are where the run header (count<<1
-	// as a varint) grows to 2, 3, 4 and 5 bytes
+	// 64, 8192 and 2^20 equal values are where the run header (count<<1 as a
+	// varint) grows to 2, 3 and 4 bytes (5 bytes would need 2^27 values in one
+	// run: beyond the reference decoder's own sanity limit of 2^26 values per
+	// stream, not covered)
 	special := []int{63, 64, 127, 128, 503, 504, 505, 8191, 8192, 8193, 16383, 16384, 1<<20 - 1, 1 << 20, 1<<20 + 1}
 	if thorough {
-		special = append(special, 70000, 1<<27-1, 1<<27)
+		special = append(special, 70000, 1<<22+3)
 	}
 	emit := func(runs [][2]int) {
 		if !c.Mine() {
